@@ -1162,15 +1162,19 @@ impl StorageEngine {
                     let len = list.len() as isize;
                     
                     let start = if start < 0 { (len + start).max(0) } else { start } as usize;
-                    let stop = if stop < 0 { (len + stop).max(0) } else { stop } as usize;
+                    // a stop before the head of the list selects nothing (it must not be clamped to 0)
+                    let stop = if stop < 0 { len + stop } else { stop };
                     
                     let mut result = Vec::new();
-                    for (i, item) in list.iter().enumerate() {
-                        if i >= start && i <= stop {
-                            result.push(item.clone());
-                        }
-                        if i > stop {
-                            break;
+                    if stop >= 0 {
+                        let stop = stop as usize;
+                        for (i, item) in list.iter().enumerate() {
+                            if i >= start && i <= stop {
+                                result.push(item.clone());
+                            }
+                            if i > stop {
+                                break;
+                            }
                         }
                     }
                     result
@@ -1245,12 +1249,16 @@ impl StorageEngine {
                     let len = list.len() as isize;
                     
                     let start = if start < 0 { (len + start).max(0) } else { start } as usize;
-                    let stop = if stop < 0 { (len + stop).max(0) } else { stop } as usize;
+                    // a stop before the head of the list keeps nothing (it must not be clamped to 0)
+                    let stop = if stop < 0 { len + stop } else { stop };
                     
                     let mut new_list = VecDeque::new();
-                    for (i, item) in list.iter().enumerate() {
-                        if i >= start && i <= stop {
-                            new_list.push_back(item.clone());
+                    if stop >= 0 {
+                        let stop = stop as usize;
+                        for (i, item) in list.iter().enumerate() {
+                            if i >= start && i <= stop {
+                                new_list.push_back(item.clone());
+                            }
                         }
                     }
                     
